@@ -28,7 +28,9 @@ import (
 	"errors"
 	"fmt"
 	"io"
+	"os"
 	"regexp"
+	"runtime"
 	"sort"
 	"strconv"
 	"sync"
@@ -56,11 +58,12 @@ import (
 // Watchdogs.  They only bound how long the harness waits for something that must happen; no
 // verdict depends on something NOT having happened within a time.
 const (
-	gateWatchdog  = 20 * time.Second // a gated probe gives up waiting for the controller (controller bug / dead case)
-	mwaitWatchdog = 20 * time.Second // TasksManager.Wait must return once every gate was released
-	finWatchdog   = 2 * time.Second  // Task.Wait of a task of a manager whose Wait already returned
-	stallWatchdog = 10 * time.Second // the steering controller waits this long for the fate of the awaited handler
-	stallShort    = 3 * time.Second  // … after the first stall seen by this worker process (see stallWait)
+	gateWatchdog   = 20 * time.Second       // a gated probe gives up waiting for the controller (controller bug / dead case)
+	mwaitWatchdog  = 20 * time.Second       // TasksManager.Wait must return once every gate was released
+	finWatchdog    = 2 * time.Second        // Task.Wait of a task of a manager whose Wait already returned
+	stallWatchdog  = 10 * time.Second       // the steering controller waits this long for the fate of the awaited handler
+	stallShort     = 3 * time.Second        // … after the first stall seen by this worker process (see stallWait)
+	settleWatchdog = 300 * time.Millisecond // end of a case: wait for its goroutines to end (see settle)
 )
 
 // recorder is the event list of one case.
@@ -612,11 +615,30 @@ func driveCase(c *Case, w io.Writer, header bool) {
 	}
 	rec := &recorder{out: w}
 	r := &run{c: c, rec: rec, gates: newGateCtl(c.Seed, c.Hold), steer: newSteerCtl(c, rec)}
+	base := runtime.NumGoroutine()
 	if p, _ := hx.Guard(r.execute); p {
 		r.gates.releaseAll()
 		r.steer.releaseAll()
 		r.rec.emit("panic")
 	}
+	settle(base)
 	r.rec.close()
 	fmt.Fprintln(w, "end")
+}
+
+// settle waits until the goroutines started by the case have ended (the count is back at what it
+// was before the case), generously but not for ever.  A goroutine of the code under test that
+// outlives `TasksManager.Wait` (a task that runs detached from its owner) and then panics would
+// otherwise kill the worker in the middle of a LATER case and be blamed on that one.  Nothing is
+// concluded from the wait itself.
+func settle(base int) {
+	if os.Getenv("PIPELINE_DEBUG_SETTLE") != "" {
+		defer func(t0 time.Time) {
+			fmt.Fprintf(os.Stderr, "settle base=%d now=%d waited=%v\n", base, runtime.NumGoroutine(), time.Since(t0))
+		}(time.Now())
+	}
+	deadline := time.Now().Add(settleWatchdog)
+	for runtime.NumGoroutine() > base && time.Now().Before(deadline) {
+		time.Sleep(50 * time.Microsecond)
+	}
 }
